@@ -255,7 +255,10 @@ impl<'a, G: AffineRepr> Iterator for AggregatedGensIter<'a, G> {
     type Item = &'a G;
 
     fn next(&mut self) -> Option<Self::Item> {
-        if self.gen_idx >= self.n {
+        // Skip over exhausted parties. A loop (bounded by `m`) rather than a single
+        // step, so that a view with `n == 0` is empty instead of reading the next
+        // party's first generator, and `party_idx` never runs past `m`.
+        while self.party_idx < self.m && self.gen_idx >= self.n {
             self.gen_idx = 0;
             self.party_idx += 1;
         }
